@@ -4,6 +4,7 @@ from __future__ import annotations
 import itertools
 from fractions import Fraction
 
+import collections
 import edzed
 
 from . import common, drive
@@ -88,8 +89,8 @@ class C16(common.Spec):
             return lambda data: {**data, 5: 1}
         if kind == 'dataedit':
             style, ops = f[1], f[2]
-            de = edzed.DataEdit() if style == 'instance' else edzed.DataEdit
-            if not ops and style != 'instance':
+            de = edzed.DataEdit() if style != 'class' else edzed.DataEdit
+            if not ops and style == 'class':
                 de = edzed.DataEdit()
             for op in ops:
                 name = op[0]
@@ -111,6 +112,14 @@ class C16(common.Spec):
                     de = de.add_output(op[1], ctl(op[2]))
                 else:
                     raise ValueError(op)
+            if style in ('chainmap', 'userdict'):
+                # the new data returned as a mapping that is not a dict; the argument is left alone
+                wrap = collections.ChainMap if style == 'chainmap' else collections.UserDict
+
+                def nondict(data, _de=de):
+                    r = _de(dict(data))
+                    return wrap(r) if isinstance(r, dict) else r
+                return nondict
             return de
         raise ValueError(f)
 
@@ -329,7 +338,7 @@ def rand_op(rng):
 def rand_filter(rng):
     r = rng.random()
     if r < 0.35:
-        return ['dataedit', rng.choice(['class', 'instance']),
+        return ['dataedit', rng.choice(['class', 'instance', 'instance', 'chainmap', 'userdict']),
                 [rand_op(rng) for _ in range(rng.choice([0, 1, 1, 2, 3, 4]))]]
     if r < 0.45:
         return ['edge', [rng.random() < .5, rng.random() < .5, rng.choice([None, True, False]),
